@@ -2506,6 +2506,11 @@ def _extract_block(body_toks, frm, to, a, rep):
                 if nx < len(body_toks) and body_toks[nx].text == ":" and body_toks[_next_sig(body_toks, nx)].text != ":" \
                         and pv >= 0 and body_toks[pv].text in (",", "{"):
                     hits.append(nx)
+        nth = int(a.get("field_nth", "0"))
+        if nth:
+            if len(hits) < nth:
+                raise AnchorLost(f"field_init {name!r} #{nth}: only {len(hits)} struct-literal fields of that name")
+            hits = [hits[nth - 1]]
         if len(hits) != 1:
             raise AnchorLost(f"field_init {name!r}: {len(hits)} struct-literal fields of that name")
         k = hits[0] + 1
